@@ -18,9 +18,11 @@ TypeViol(ty, back, err, encs) ==
   \cup (IF \E i \in 1..Len(encs) : encs[i] # encs[1] THEN {"StructureOnly"} ELSE {})
 
 \* a call trace: [func, same (BOOLEAN: decoded function IS the original), args (set of [n, ty]), ret, yld]
-TraceViol(orig, back, err) ==
+TraceViol(orig, back, err, rowsEqual) ==
   IF err # "NONE" THEN {"TraceEncodeTotal"}
   ELSE   (IF ~back.same THEN {"SameFunction"} ELSE {})
+    \* the stored row (the text columns) is a function of the trace's structure only
+    \cup (IF ~rowsEqual THEN {"TraceStructureOnly"} ELSE {})
     \cup (IF {[n |-> x.n, ty |-> Norm(x.ty)] : x \in orig.args} # {[n |-> x.n, ty |-> Norm(x.ty)] : x \in back.args}
           THEN {"ArgTypes"} ELSE {})
     \cup (IF Norm(orig.ret) # Norm(back.ret) THEN {"ReturnType"} ELSE {})
